@@ -113,10 +113,13 @@ fn main() {
     // budget scenarios: batches that cross the cap
     let big = |n: usize| (0..n).map(|i| (i as u64, "m", "read")).collect::<Vec<_>>();
     scripts.push(vec![big(30), big(5)]); scripts.push(vec![big(40)]); scripts.push(vec![big(16), big(16), big(3)]);
+    // a provider that insists on a barred tool, one call per response, for 60 responses
+    scripts.push((0..60).map(|_| vec![(0u64, "m", "rm")]).collect());
     for script in &scripts { for stateless in [false, true] { for allowed in [None, Some(vec!["read"])] {
         let (executed, sent, reason) = run(script.clone(), stateless, allowed.clone());
         let mut problem: Option<String> = None;
         if let Some(a) = &allowed { if executed.iter().any(|n| !a.contains(&n.as_str())) { problem = Some("a tool excluded by the configured tool choice was executed".into()); } }
+        if sent.len() as u64 > DEFAULT_MAX_TOOL_CALLS + 2 { problem = Some(format!("the provider was asked {} times, each answer handling a tool call: the number of tool calls in a run is not bounded by the budget {}", sent.len(), DEFAULT_MAX_TOOL_CALLS)); }
         if executed.len() as u64 > DEFAULT_MAX_TOOL_CALLS { problem = Some(format!("{} tool calls executed, the budget is {}", executed.len(), DEFAULT_MAX_TOOL_CALLS)); }
         // answers: request i+1 must answer exactly the calls of response i, by call id, in output order
         for (i, resp) in script.iter().enumerate() {
